@@ -768,7 +768,7 @@ func (h *c08hist) genOp() (ref.Instr, bool) {
 		}
 		return ref.Instr{Op: "pow", In: []int{x}, F: 2}, true
 	case 8:
-		return ref.Instr{Op: []string{"gt", "le", "eq", "ne"}[r.Intn(4)], In: []int{x, same()}}, true
+		return ref.Instr{Op: []string{"gt", "le", "eq", "ne", "ge", "lt"}[r.Intn(6)], In: []int{x, same()}}, true
 	default:
 		if rank >= 1 && maxAbs(v) < 10 {
 			y := same()
@@ -861,6 +861,9 @@ func (h *c08hist) wideOp(x int, same func() int) (ref.Instr, bool) {
 func runC08(c *fw.Ctx) {
 	for i := 0; i < c.Pick(10000, 300000); i++ {
 		c.Case(func(k *fw.K) { c08History(k) })
+	}
+	for i := 0; i < c.Pick(3000, 60000); i++ {
+		c.Case(func(k *fw.K) { c08TrackingIndependence(k) })
 	}
 }
 
@@ -957,6 +960,112 @@ func hashStrings(ss []string) uint32 {
 		}
 	}
 	return x
+}
+
+// c08TrackingIndependence: "tracking never changes forward values" on SPECIAL data - operands holding NaN, zeros of either sign,
+// infinities, subnormals and ties next to ordinary numbers. One operation is applied to the same values three times: all
+// operands untracked, all tracked, only the first tracked; the results must agree bit for bit (a NaN with a NaN).
+func c08TrackingIndependence(k *fw.K) {
+	r := k.Rng
+	shape := RandShape(r, 0, 3, 3)
+	special := func(shape []int) *ref.T {
+		t := Shuffled(r, Unique(r, shape, 0.2, 2.5))
+		for i := range t.Data {
+			switch r.Intn(9) {
+			case 0:
+				t.Data[i] = math.NaN()
+			case 1:
+				t.Data[i] = 0
+			case 2:
+				t.Data[i] = math.Copysign(0, -1)
+			case 3:
+				t.Data[i] = []float64{math.Inf(1), math.Inf(-1)}[r.Intn(2)]
+			case 4:
+				t.Data[i] = []float64{5e-324, -3e-310, 1e-300}[r.Intn(3)]
+			case 5:
+				t.Data[i] = float64(r.Intn(3) - 1) // ties between operands
+			}
+		}
+		return t
+	}
+	x := special(shape)
+	in := ref.Instr{}
+	xs := []*ref.T{x}
+	rank := len(shape)
+	switch q := r.Intn(6); {
+	case q == 0:
+		in.Op = []string{"exp", "log", "sin", "cos", "tan", "sinh", "cosh", "tanh", "relu", "sigmoid", "leakyrelu"}[r.Intn(11)]
+		in.F = 0.1
+	case q == 1:
+		in.Op = []string{"scale", "pow"}[r.Intn(2)]
+		in.F = []float64{0, 1, -1, 2, 0.5, -2, 3}[r.Intn(7)]
+	case q == 2 && rank >= 1:
+		in.Op = []string{"sumalong", "maxalong", "minalong", "avgalong", "varalong", "stdalong", "meanalong", "flatten", "unsqueeze", "softmax"}[r.Intn(10)]
+		in.Dim = r.Intn(rank)
+	case q == 3 && rank >= 2:
+		in.Op = []string{"transpose", "matmul"}[r.Intn(2)]
+		if in.Op == "matmul" {
+			ys := ref.CopyInts(shape)
+			ys[rank-2], ys[rank-1] = shape[rank-1], 1+r.Intn(3)
+			xs = append(xs, special(ys))
+		}
+	default:
+		in.Op = []string{"add", "sub", "mul", "div", "elmax", "elmin", "elmax", "elmin", "dot", "concat", "patch"}[r.Intn(11)]
+		if in.Op == "dot" && rank == 0 {
+			in.Op = "mul"
+		}
+		if in.Op == "concat" && rank == 0 {
+			in.Op = "elmin"
+		}
+		xs = append(xs, special(shape))
+	}
+	k.Case = gcase{In: in, Ops: xs}
+	k.Key("tracking-independence/%s/%s", in.Op, shapeKey(shape))
+	k.Count("tracking_independence_cases", 1)
+	var results []*ref.T
+	for _, mask := range [][]bool{{false, false}, {true, true}, {true, false}} {
+		ts := make([]tensor.Tensor, len(xs))
+		for i, v := range xs {
+			ts[i] = rt.MustLeaf(v, mask[i])
+		}
+		y, err, p := exec(in, ts)
+		if p != nil {
+			k.Failf("%s%v on special values (tracked %v): panic %v", in.Op, shapesOf(xs), mask[:len(xs)], p)
+			return
+		}
+		if err != nil || y == nil {
+			if len(results) > 0 {
+				k.Failf("%s%v on special values: accepted with untracked operands, refused with tracked %v: %v", in.Op, shapesOf(xs), mask[:len(xs)], err)
+			}
+			return
+		}
+		v, err := rt.Read(y)
+		if err != nil {
+			k.Failf("%s%v on special values: result unreadable: %v", in.Op, shapesOf(xs), err)
+			return
+		}
+		results = append(results, v)
+	}
+	for q := 1; q < len(results); q++ {
+		a, b := results[0], results[q]
+		if !ref.SameShape(a.Shape, b.Shape) {
+			k.Failf("tracking changed the SHAPE of %s%v: %v untracked, %v tracked", in.Op, shapesOf(xs), a.Shape, b.Shape)
+			return
+		}
+		for e := range a.Data {
+			u, w := a.Data[e], b.Data[e]
+			if (u != u) != (w != w) || (u == u && math.Float64bits(u) != math.Float64bits(w)) {
+				k.Failf("tracking changed a forward value: %s%v element %d is %v with untracked operands and %v with tracked ones (operands %v)", in.Op, shapesOf(xs), e, u, w, func() [][]float64 {
+					var o [][]float64
+					for _, x := range xs {
+						o = append(o, x.Data)
+					}
+					return o
+				}())
+				return
+			}
+		}
+	}
 }
 
 // c08UntrackedTwin re-runs the operations of the history with every leaf
